@@ -22,9 +22,15 @@
     energy gained = energy dispensed and payments made = payments received (every charge event
     counts once on either side);
   * `charge_transfers` says the payment of each event is amount × tariff of that plug at that time.
-  Per energy type: a charge event books under the plug's energy type (`charge_transfers`); the
-  run-level sums above are over both types together (the per-type split needs that a plug type's
-  energy type never changes, which `Frame.stn` provides but is not composed here).
+  Per energy type, over whole histories (`elec` = energy type of every installed plug, `kindOf` =
+  powertrain of every vehicle, both read off the initial state - `types_init` - and proved never
+  to change; hypothesis `TypeEnv`: a plug of the other type adds nothing, `concrete_types`):
+  * `run_station_typed` — dispensed electricity = initial + Σ charge events at the station's electric
+    plugs, dispensed fuel likewise;
+  * `run_vehicle_typed` — a vehicle's energy gained = initial + Σ its charge events at plugs of its
+    own type; its charge events at plugs of the other type carry no energy;
+  * `fleet_by_type` — summed over covering sets: gained by the electric vehicles = electricity
+    dispensed, gained by the others = fuel dispensed.
   The implementation's traces are checked by the Lean step monitor `viol05Step` after every phase.
 -/
 import Proofs.C04
@@ -137,6 +143,72 @@ theorem concrete_gain (o : Oracle) (mechs : List Mech) : Books.GainEnv (o.env me
 example : (([1, 2] : List Nat).map (Books.charged [.charge 1 0 0 3 6, .move 2 5 1, .charge 2 0 0 4 8])).sum
     = (([0] : List Nat).map (Books.dispensed [.charge 1 0 0 3 6, .move 2 5 1, .charge 2 0 0 4 8])).sum := by
   decide +kernel
+
+
+/-! ### per energy type -/
+
+section Typed
+variable {env : Env} {elec : StationId → ChargerId → Bool} {isE : MechId → Bool} {kindOf : VehicleId → MechId}
+
+/-- **per station and per energy type**: after any history of the complete cycle from an empty
+    log, whatever the instructions, the electricity a station reports as dispensed is what it had
+    reported plus the amounts of the charge events at its electric plugs, likewise for fuel, and
+    no plug has changed its energy type -/
+theorem run_station_typed (hf : ∀ c, env.inFence c = true) {w0 w : World} (hwf : w0.sim.WF)
+    (ht : Books.Typed elec w0.sim) (h0 : w0.log = []) (h : WReachable env w0 w)
+    {i : StationId} {st : Station} (hst : w.sim.station? i = some st) :
+    ∃ st0, w0.sim.station? i = some st0 ∧ st.dispE = st0.dispE + Books.dispensedE elec w.log i ∧
+      st.dispG = st0.dispG + Books.dispensedG elec w.log i ∧ ∀ cs ∈ st.plugs, cs.electric = elec i cs.id :=
+  Books.run_station_typed hf hwf ht h0 h hst
+
+/-- **per vehicle and per energy type**: a vehicle keeps its powertrain; its energy gained is what
+    it had plus the amounts of its charge events at plugs of its own energy type; its charge
+    events at plugs of the other type carry no energy -/
+theorem run_vehicle_typed (hg : Books.GainEnv env) (hte : Books.TypeEnv env isE) (hf : ∀ c, env.inFence c = true)
+    {w0 w : World} (hwf : w0.sim.WF) (ht : Books.Typed elec w0.sim) (hm : Books.Meched kindOf w0.sim)
+    (h0 : w0.log = []) (h : WReachable env w0 w)
+    {v : VehicleId} {veh0 veh : Vehicle} (hv0 : w0.sim.vehicle? v = some veh0) (hv : w.sim.vehicle? v = some veh) :
+    veh.mech = veh0.mech ∧
+    veh.en.gained = veh0.en.gained + Books.charged (Books.ofType elec (isE veh.mech) w.log) v ∧
+    Books.charged (Books.ofType elec (!isE veh.mech) w.log) v = 0 :=
+  Books.run_vehicle_typed hg hte hf hwf ht hm h0 h hv0 hv
+
+/-- **summed over the fleet and per energy type**: in the log of any run, the energy gained from
+    charging by the electric vehicles is the electricity dispensed by the stations, and the energy
+    gained by the others is the fuel dispensed -/
+theorem fleet_by_type (hte : Books.TypeEnv env isE) (hf : ∀ c, env.inFence c = true) {w0 w : World} (hwf : w0.sim.WF)
+    (ht : Books.Typed elec w0.sim) (hm : Books.Meched kindOf w0.sim) (h0 : w0.log = []) (h : WReachable env w0 w)
+    (vids sids : List Nat) (hv : vids.Nodup) (hs : sids.Nodup)
+    (hcov : ∀ e ∈ w.log, match e with | .charge v s _ _ _ => v ∈ vids ∧ s ∈ sids | _ => True) :
+    ((vids.filter fun u => isE (kindOf u)).map (Books.charged w.log)).sum = (sids.map (Books.dispensedE elec w.log)).sum ∧
+    ((vids.filter fun u => !isE (kindOf u)).map (Books.charged w.log)).sum = (sids.map (Books.dispensedG elec w.log)).sum :=
+  Books.fleet_totals_typed w.log (Books.run_clean hte hf hwf ht hm h0 h) vids sids hv hs hcov
+
+/-- the hypotheses on the initial state hold for the types read off it -/
+theorem types_init {s : Sim} (hwf : s.WF) : Books.Typed (Books.elecOf s) s ∧ Books.Meched (Books.kindIn s) s :=
+  ⟨Books.typed_init hwf, Books.meched_init hwf⟩
+
+/-- the driver's environment meets the hypothesis on the physics: a plug of the other type adds nothing -/
+theorem concrete_types (o : Oracle) (mechs : List Mech) :
+    Books.TypeEnv (o.env mechs) (fun id => match mechOf mechs id with | some m => decide (m.kind = .bev) | none => true) :=
+  Books.concrete_typeEnv o mechs
+
+end Typed
+
+/-- not vacuous: an electric vehicle (1) and a fuel vehicle (2), one station with an electric plug
+    (0) and a pump (1); the fuel vehicle's attempt at the electric plug carries nothing -/
+example :
+    let log : List Event := [.charge 1 0 0 3 6, .charge 2 0 1 4 8, .charge 2 0 0 0 0]
+    let elec : StationId → ChargerId → Bool := fun _ c => c == 0
+    let isE : MechId → Bool := fun m => m == 0
+    let kindOf : VehicleId → MechId := fun v => if v = 1 then 0 else 1
+    Books.Clean elec isE kindOf log ∧
+    (([1, 2].filter fun u => isE (kindOf u)).map (Books.charged log)).sum = ([0].map (Books.dispensedE elec log)).sum ∧
+    (([1, 2].filter fun u => !isE (kindOf u)).map (Books.charged log)).sum = ([0].map (Books.dispensedG elec log)).sum := by
+  refine ⟨?_, by decide +kernel, by decide +kernel⟩
+  intro e he
+  simp only [List.mem_cons, List.not_mem_nil, or_false] at he
+  rcases he with rfl | rfl | rfl <;> simp [Books.bad]
 
 end C05
 end Hive
